@@ -92,6 +92,41 @@ func (x *Exec) rangeString(s *ast.RangeStmt, st *State, c VStr, lc *LoopContract
 	return f
 }
 func (x *Exec) rangeOther(s *ast.RangeStmt, st *State, coll Val, lc *LoopContract, ord int) *Flow {
+	if m, ok := coll.(VStrMap); ok {
+		return x.rangeStrMap(s, st, m, lc, ord)
+	}
 	unsupp(s.Pos(), x.fx.prog.fset, fmt.Sprintf("range over %T is not modelled", coll))
 	return nil
+}
+
+// rangeStrMap: "for k, v := range m" over a map[string]string parameter: an unknown number of
+// iterations, each with some key of the map and its value, in no particular order. Termination of a
+// range over a finite map is assumed.
+func (x *Exec) rangeStrMap(s *ast.RangeStmt, st *State, m VStrMap, lc *LoopContract, ord int) *Flow {
+	fx := x.fx
+	fx.trusted["range over a map visits entries of the map (each key present, value = m[key]) in an unspecified order and terminates (assumed)"] = true
+	ls := &loopSpec{node: s, ord: ord, lc: lc, bodyPos: s.Body.Lbrace + 1, body: s.Body.List, modNodes: []ast.Node{s.Body}}
+	ls.autoDec = func(h *State) Term { return "1" }
+	ls.guard = func(h *State) Term { return fx.declare(sortBool, "more") }
+	ls.pre = func(b *State) {
+		k := fx.freshStr("key")
+		e := x.ev(b)
+		tv := e.strMapLookup(m, k, true, s).(VTuple)
+		fx.assume(b.pc, tv[1].(VBool).T)
+		if id, ok := s.Key.(*ast.Ident); ok && id.Name != "_" {
+			obj := x.info.Defs[id]
+			if obj == nil {
+				obj = x.info.Uses[id]
+			}
+			b.env[obj] = k
+		}
+		if id, ok := s.Value.(*ast.Ident); ok && id.Name != "_" {
+			obj := x.info.Defs[id]
+			if obj == nil {
+				obj = x.info.Uses[id]
+			}
+			b.env[obj] = tv[0]
+		}
+	}
+	return x.loop(ls, st)
 }
